@@ -162,6 +162,60 @@ func isCtxMethod(callee *ssa.Function, name string) bool {
 	return isMethod(callee, cliPkg, "Context", name)
 }
 
+// flagNames: the constant strings a flag-name argument can be — a literal, or a
+// parameter/φ that only literals reach through the static callers (a helper such
+// as stringSetting(c, "database", cur) reads the flag its callers name).
+func flagNames(p *core.Program, v ssa.Value, depth int) ([]string, bool) {
+	switch x := v.(type) {
+	case *ssa.Const:
+		if x.Value != nil && x.Value.Kind() == constant.String {
+			return []string{constant.StringVal(x.Value)}, true
+		}
+	case *ssa.Phi:
+		var out []string
+		for _, e := range x.Edges {
+			s, ok := flagNames(p, e, depth)
+			if !ok {
+				return nil, false
+			}
+			out = append(out, s...)
+		}
+		return out, len(out) > 0
+	case *ssa.Parameter:
+		if depth <= 0 {
+			return nil, false
+		}
+		fn := x.Parent()
+		idx := -1
+		for i, prm := range fn.Params {
+			if prm == x {
+				idx = i
+			}
+		}
+		if idx < 0 {
+			return nil, false
+		}
+		var out []string
+		for _, g := range p.Funcs {
+			for _, b := range g.Blocks {
+				for _, in := range b.Instrs {
+					ci, ok := in.(ssa.CallInstruction)
+					if !ok || ci.Common().StaticCallee() != fn || idx >= len(ci.Common().Args) {
+						continue
+					}
+					s, ok := flagNames(p, ci.Common().Args[idx], depth-1)
+					if !ok {
+						return nil, false
+					}
+					out = append(out, s...)
+				}
+			}
+		}
+		return uniq(out), len(out) > 0
+	}
+	return nil, false
+}
+
 func collectFlagReads(p *core.Program) []flagRead {
 	var out []flagRead
 	for _, fn := range p.Funcs {
